@@ -87,6 +87,11 @@ type MboxSession struct {
 	Dials      atomic.Int64
 	Accepts    atomic.Int64
 	serverStop atomic.Bool
+
+	prevDone map[string]<-chan struct{}
+	// Overlaps lists connections that were handed out while the previous
+	// connection of the same listener / dialer was still open.
+	Overlaps []string
 }
 
 // Tick returns the next value of the session's logical clock.
@@ -117,6 +122,21 @@ func (m *MboxSession) track(side string, n int, conn net.Conn) *ConnEvent {
 	ev := &ConnEvent{Side: side, N: n, AcquireAt: m.Tick(), Local: conn.LocalAddr().String(), Remote: conn.RemoteAddr().String()}
 	m.mu.Lock()
 	m.Events = append(m.Events, ev)
+	// mutual exclusion, decided at the moment of the hand-out: the previous
+	// connection of this side must already be done
+	if m.prevDone == nil {
+		m.prevDone = map[string]<-chan struct{}{}
+	}
+	if pd, ok := m.prevDone[side]; ok {
+		select {
+		case <-pd:
+		default:
+			m.Overlaps = append(m.Overlaps, fmt.Sprintf("%s connection #%d was handed out while connection #%d was still open", side, n, n-1))
+		}
+	}
+	if d, ok := conn.(doner); ok {
+		m.prevDone[side] = d.Done()
+	}
 	m.mu.Unlock()
 	if d, ok := conn.(doner); ok {
 		m.wg.Add(1)
@@ -156,23 +176,28 @@ func (m *MboxSession) StartServer() {
 			}
 			m.Accepts.Add(1)
 			ev := m.track("server", n, conn)
-			nc, _, err := m.S.Noise.ServerHandshake(conn)
-			if err != nil {
+			// As grpc.Server does: the handshake runs in its own
+			// goroutine and Accept is entered again at once.
+			m.wg.Add(1)
+			go func(conn net.Conn, ev *ConnEvent) {
+				defer m.wg.Done()
+				nc, _, err := m.S.Noise.ServerHandshake(conn)
+				if err != nil {
+					m.mu.Lock()
+					ev.HSErr = err.Error()
+					m.mu.Unlock()
+					_ = conn.Close()
+					return
+				}
 				m.mu.Lock()
-				ev.HSErr = err.Error()
+				ev.HSOK = true
 				m.mu.Unlock()
-				_ = conn.Close()
-				continue
-			}
-			m.mu.Lock()
-			ev.HSOK = true
-			m.mu.Unlock()
-			select {
-			case m.SConns <- nc:
-			case <-m.ctx.Done():
-				_ = nc.Close()
-				return
-			}
+				select {
+				case m.SConns <- nc:
+				case <-m.ctx.Done():
+					_ = nc.Close()
+				}
+			}(conn, ev)
 		}
 	}()
 }
